@@ -43,26 +43,29 @@ def r1(ctx, cfg):
         if ok:
             b, t = sl[0]
             a = P.call_args(f, t, b)
-            vp = q.calls(f, SK + "validate_percentage")
-            okv = len(vp) == 1 and _succ_dom(P, f, b, SK + "validate_percentage") and same_origin(P.call_args(f, vp[0][1], vp[0][0])[1], a[5])
-            ctx.ob(R, SUDO, "percentage-validated-before-slash", okv, "slash is reachable without a successful validate_percentage on the same percentage", fn=f, line=t["line"],
-                   sample="slash dominated by Continue(validate_percentage(percentage))")
+            # slash only runs for percentage <= 1: dominated by the false edge of `percentage > Decimal::one()` on the same
+            # percentage, whose true edge ends in an error (the guard helper validate_percentage is always spliced -
+            # vlib/inline.py ALWAYS_INLINE - so an inlined `if` is the same form)
+            conds = q.dominating_conditions(P, f, b)
+            okv = q.has_cond(conds, "lt", pol=False, arg_pred=lambda x: peel(x[0])[0] == "call" and peel(x[0])[1].endswith("Decimal::one") and same_origin(x[1], a[5]))
+            gs = [g for g in q.guards(P, f) if g[1] == "lt" and peel(g[2][0])[0] == "call" and peel(g[2][0])[1].endswith("Decimal::one") and same_origin(g[2][1], a[5])]
+            okv = okv and len(gs) == 1
+            if okv:
+                cf0 = cfg_of(f)
+                reach = cf0.reachable_from(gs[0][3])
+                okv = b not in reach
+                for b2, i2, st2 in f.stmts():
+                    if b2 in reach and st2["k"] == "assign" and st2["dst"]["l"] == 0 and not st2["dst"]["p"]:
+                        o2 = peel(P.rvalue(f, st2["rv"], (b2, i2)))
+                        if not ((o2[0] == "agg" and o2[1].endswith("Result::Err")) or (o2[0] == "call" and o2[1].endswith("FromResidual::from_residual"))):
+                            okv = False
+            ctx.ob(R, SUDO, "percentage-validated-before-slash", okv, "slash is reachable for a percentage above 1 (no `percentage > Decimal::one()` guard ending in an error on the same percentage)", fn=f, line=t["line"],
+                   sample="slash dominated by !(percentage > 1); the other edge only returns Err")
             ctx.ob(R, SUDO, "slash(validator, percentage)-of-the-message", contains(a[4], lambda x: is_param_field(x, "msg", "validator")) and is_param_field(a[5], "msg", "percentage"),
                    "slash(%s, %s)" % (fmt(a[4])[:40], fmt(a[5])[:40]), fn=f, sample="(&validator, percentage)")
             st = peel(a[2])
             ctx.ob(R, SUDO, "slash-on-staking-view", st[0] == "call" and st[1] == "prefixed_storage::prefixed" and peel(st[2][1]) == ("item", "staking::NAMESPACE_STAKING"),
                    "slash operates on %s" % fmt(st)[:80], fn=f, sample="prefixed(storage, NAMESPACE_STAKING)")
-    key = SK + "validate_percentage"
-    f = ctx.need_fn(R, key)
-    if f is not None:
-        oks = []
-        for bid, i, st in f.stmts():
-            if st["k"] == "assign" and st["dst"]["l"] == 0 and not st["dst"]["p"] and st["rv"].get("variant") == "Ok":
-                conds = q.dominating_conditions(P, f, bid)
-                # percentage <= 1  ≡ !(1 < percentage)
-                oks.append(q.has_cond(conds, "lt", pol=False, arg_pred=lambda a: peel(a[0])[0] == "call" and peel(a[0])[1].endswith("Decimal::one") and is_param(a[1], "percentage")))
-        ctx.ob(R, key, "Ok-iff-percentage<=1", oks == [True], "validate_percentage accepts outside `percentage <= Decimal::one()` (%s)" % oks, fn=f,
-               sample="Ok(()) dominated by percentage <= 1")
     key = SK + "slash"
     f = ctx.need_fn(R, key)
     if f is not None:
